@@ -748,5 +748,26 @@ m('readrows-skips-first-row-after-flush','C18',BT,
 				return true
 			}
 ''','R71/','a row is passed over because of a flag, not because of its content')
+# ---- C14 / R72: a missing table is NotFound
+m('deletetable-idempotent-on-missing','C14',BT,
+  '''	if _, ok := s.tables[req.Name]; !ok {
+		return nil, status.Errorf(codes.NotFound, "table %q not found", req.Name)
+	}''','''	if _, ok := s.tables[req.Name]; !ok {
+		return &emptypb.Empty{}, nil
+	}''','R72/(*server).DeleteTable','deleting a table that does not exist is acknowledged')
+m('readrows-missing-table-internal','C14',BT,
+  '''	tbl, ok := s.tables[req.TableName]
+	s.mu.Unlock()
+	if !ok {
+		return status.Errorf(codes.NotFound, "table %q not found", req.TableName)
+	}
+
+	if err := validateRowRanges(req); err != nil {''','''	tbl, ok := s.tables[req.TableName]
+	s.mu.Unlock()
+	if !ok {
+		return status.Errorf(codes.Internal, "table %q not found", req.TableName)
+	}
+
+	if err := validateRowRanges(req); err != nil {''','R72/(*server).ReadRows','a scan of a deleted table answers Internal')
 json.dump(M, open('/verif/mutants.json','w'), indent=1)
 print(len(M),'mutants')
